@@ -24,7 +24,7 @@ def to_bool(x):
     if is_sym(x):
         if z3.is_bool(x):
             return x
-        return x != 0
+        return x != 0  # Int and BitVec alike
     return bool(x)
 
 
@@ -93,8 +93,15 @@ def lift_int(x):
     return z3.IntVal(int(x))
 
 
+def is_bv(x):
+    return is_sym(x) and z3.is_bv(x)
+
+
 def If(c, a, b):
     c = to_bool(c)
+    if is_sym(c) and (is_bv(a) or is_bv(b)):
+        w = (a if is_bv(a) else b).size()
+        return z3.If(c, a if is_bv(a) else z3.BitVecVal(a, w), b if is_bv(b) else z3.BitVecVal(b, w))
     if is_sym(c):
         if isinstance(a, bool) or isinstance(b, bool) or (is_sym(a) and z3.is_bool(a)) or (is_sym(b) and z3.is_bool(b)):
             return z3.If(c, lift_bool(to_bool(a)), lift_bool(to_bool(b)))
@@ -123,6 +130,11 @@ def Eq(a, b):
         if len(a) != len(b):
             return False
         return And(*[Eq(x, y) for x, y in zip(a, b)])
+    if is_sym(a) and z3.is_bv(a) or is_sym(b) and z3.is_bv(b):
+        w = (a if is_sym(a) and z3.is_bv(a) else b).size()
+        la = a if is_sym(a) and z3.is_bv(a) else (z3.Int2BV(a, w) if is_sym(a) else z3.BitVecVal(a, w))
+        lb = b if is_sym(b) and z3.is_bv(b) else (z3.Int2BV(b, w) if is_sym(b) else z3.BitVecVal(b, w))
+        return la == lb
     if any_sym(a, b):
         if (is_sym(a) and z3.is_bool(a)) or (is_sym(b) and z3.is_bool(b)):
             if not is_sym(a) and not isinstance(a, bool):
@@ -183,3 +195,10 @@ def AllBytes(x, value):
         return bytes(x) == bytes([value]) * len(x)
     from . import values as V
     return And(*[Eq(b, value) for b in V.items_of(x)]) if len(x) else True
+
+
+def LShR(a, k):
+    """logical shift right for bit-vectors, >> for python ints"""
+    if is_bv(a):
+        return z3.LShR(a, k)
+    return a >> k
